@@ -93,6 +93,9 @@ def oracle_for_text(text, wd, tag):
     return zi, msg.strip()
 
 
+KNOWN_DELTACODE_KEY = 'extended:generated zone_infos.cpp: deltaCode initialiser does not fit int8_t (STDOFF minute remainder >= 8)'
+
+
 def check_program_scope(kc, name, text, scope, years, run_engine=True, zone_limit=None):
     """Compile one program for one scope (arduino), account for every name, and decide the emitted zones against zic."""
     rep = {'program': name, 'scope': scope, 'emitted': 0, 'engine_zones': 0, 'queries': 0, 'unsat': 0, 'leaves': 0, 'steps': 0,
@@ -152,7 +155,21 @@ def check_program_scope(kc, name, text, scope, years, run_engine=True, zone_limi
     shadow = shadow_tree(kc.wd, tag, scope, outdir)
     wd2 = os.path.join(kc.wd, 'ir_' + tag)
     os.makedirs(wd2)
-    bc = build.build_ir(kc.harnesses, wd2, src_root=shadow)
+    try:
+        bc = build.build_ir(kc.harnesses, wd2, src_root=shadow)
+    except RuntimeError as e:
+        msg = str(e)
+        shutil.rmtree(shadow, ignore_errors=True)
+        shutil.rmtree(wd2, ignore_errors=True)
+        if scope == 'extended' and 'cannot be narrowed' in msg and '/*deltaCode*/' in msg:
+            # the C12 finding seen end to end: key names the failing construct, not the program
+            kc._record(KNOWN_DELTACODE_KEY, 'program %s (extended): the generated zone_infos.cpp does not compile: %s' % (
+                name, msg[msg.find('error:'):][:200]), True, {'program': name, 'scope': scope})
+        else:
+            kc._record('generated-tables-do-not-compile:%s:%s' % (name, scope), 'program %s (%s): the generated tables do not compile '
+                       'with the library: %s' % (name, scope, msg[msg.find('error:'):][:300]), True, {'program': name, 'scope': scope})
+        rep['tables_do_not_compile'] = True
+        return rep
     shutil.rmtree(shadow, ignore_errors=True)
     zi, zmsg = oracle_for_text(text, kc.wd, tag)
     mod = loader.Module(bc)
@@ -262,7 +279,7 @@ def mutate_source(text, rnd):
                 f[2], f[3] = str(y), rnd.choice(['max', str(y + rnd.randrange(1, 9)), 'only'])
         elif f[0] == 'Zone' and len(f) >= 5 and f[3] in ('-',):
             hh = rnd.randrange(-11, 13)
-            mm = rnd.choice([0, 0, 30, 45, 7, 44, 20])
+            mm = rnd.choice([0, 0, 30, 45, 7, 37, 20])   # remainders >= 8 modulo 15: see the fixed program 'offgrid8' (known finding)
             f[2] = ('%d:%02d' % (hh, mm)) if hh >= 0 else ('-%d:%02d' % (-hh, mm))
             f[4] = ('%+03d%02d' % (hh, mm)) if mm else ('%+03d' % hh)
         else:
